@@ -1809,6 +1809,11 @@ func (e *Exec) divSym(op token.Token, x, y Int) (Int, bool) {
 	if !(xok && yok && xl >= 0 && yl > 0 && yh < 1<<55) {
 		return Int{}, false
 	}
+	if _, xh, _ := e.ival(x); xh/yl >= 64 && yh-yl < 128 {
+		// the quotient may be large but the divisor has few values: case-split the divisor instead
+		c := e.concretize(y)
+		return e.intBin(op, x, Int{W: y.W, Sg: y.Sg, C: c}), true
+	}
 	e.quotSplits++
 	prev := Int{W: x.W, Sg: x.Sg}
 	acc := y
